@@ -298,6 +298,56 @@ def _cluster(rng, n):
     return ms
 
 
+def stage_stacked(ctx):
+    """three or more almost touching spheres of clearly different radii stacked along the optical axis - generated on purpose:
+    this is the corner of the recorded finding `multisphere:order:stacked-mixed` (the field depends on the listing order).
+    Equal-size stacks and size-mismatched PAIRS agree to rounding on the unchanged tree and are held to that."""
+    import numpy as np
+    from holopy.scattering import Sphere, Spheres, Multisphere, calc_field
+    from holopy.core.metadata import detector_points
+    rng = ctx.subrng("stacked")
+    kw = dict(medium_index=1.33, illum_wavelen=0.66, illum_polarization=(1, 0))
+    for k in range(ctx.n(3, 12)):
+        kind = ["mixed", "equal", "mixed"][k % 3]
+        radii = [0.3, 0.5, 0.8] if kind == "mixed" else [0.5, 0.5, 0.5]
+        if k:
+            rng.shuffle(radii)          # case 0 is the recorded configuration itself
+        z, members = 5.0, []
+        for i, r in enumerate(radii):
+            if i:
+                z += (radii[i - 1] + r) * 1.0625
+            members.append(([0.125 * (i % 2), 0.0625 * i, z], r, [1.59, 1.45, 1.59][i] if k == 0 else rng.choice([1.45, 1.59])))
+        pts = np.array([[dy(rng, -3, 3), dy(rng, -3, 3)] for _ in range(6)])
+        det = detector_points(x=pts[:, 0], y=pts[:, 1], z=0.0)
+        th = Multisphere(eps=1e-10, qeps1=1e-10, qeps2=1e-12)
+        base, worst, failed = None, 0.0, 0
+        with warnings.catch_warnings():
+            warnings.simplefilter("ignore")
+            for p in itertools.permutations(range(3)):
+                try:
+                    f = calc_field(det, Spheres([Sphere(n=members[i][2], r=members[i][1], center=tuple(members[i][0])) for i in p],
+                                                warn=False), theory=th, **kw).values
+                except Exception as e:  # noqa
+                    if type(e).__name__ != "MultisphereFailure":
+                        raise
+                    failed += 1
+                    continue
+                if base is None:
+                    base = f
+                worst = max(worst, float(np.abs(f - base).max() / np.abs(base).max()))
+        ctx.explored += 1
+        ctx.count("stacked:%s" % kind)
+        ctx.nontriv(("stacked", kind, k))
+        meta = dict(kind="solver-stacked", members=members, rel_err=worst, refused_orders=failed)
+        if kind == "equal":
+            if worst > 1e-9 or failed:
+                ctx.violation("multisphere:order:stacked-equal", "a stack of equal spheres: the field depends on the listing order (%.2e) or some "
+                              "orders are refused (%d)" % (worst, failed), meta)
+        elif worst > 2e-2 or failed:
+            ctx.violation("multisphere:order:stacked-mixed", "three almost touching spheres of radii 0.3 / 0.5 / 0.8 stacked along the optical "
+                          "axis: the field depends on the listing order (%.2e relative; %d orders refused)" % (worst, failed), meta)
+
+
 def stage_solver(ctx):
     """exploration (not proof): multi-sphere solution vs order of the spheres, rotation about the optical axis,
     one-sphere cluster vs Mie; both interaction-equation solvers"""
@@ -313,6 +363,13 @@ def stage_solver(ctx):
     for k in range(ctx.n(14, 150)):
         n = rng.choice([1, 2, 3, 3, 4, 5, 6])
         ms = _cluster(rng, n)
+        if k % 4 == 1:
+            # a small and a large sphere almost touching, stacked along the optical axis (strong coupling, very different
+            # expansion orders), the SMALL one listed first
+            r1, r2 = rng.choice([0.25, 0.3, 0.35]), rng.choice([0.7, 0.8, 0.9])
+            c1 = [dy(rng, -1, 1), dy(rng, -1, 1), dy(rng, 5, 8)]
+            c2 = [c1[0] + rng.choice([0.0, 0.125]), c1[1], c1[2] + (r1 + r2) * rng.choice([1.0625, 1.125])]
+            ms = [(c1, r1, rng.choice([1.5, 1.59])), (c2, r2, rng.choice([1.45, 1.59]))]
         meth = rng.choice([0, 1])
         setting = rng.choice(["default", "tight", "tight"])
         opts, PERM_TOL = SETTINGS[setting]
@@ -395,6 +452,7 @@ def run(ctx):
     guarded(ctx, "interpret", stage_interpret, ctx)
     guarded(ctx, "centers", stage_centers, ctx)
     guarded(ctx, "solver", stage_solver, ctx)
+    guarded(ctx, "stacked", stage_stacked, ctx)
 
 
 def replay(ctx, data):
